@@ -496,11 +496,85 @@ def _table_methods():
       [Slot(lambda o: np.array([0, 1, 3], dtype=np.uint64), lambda o: [(np.array(v, dtype=np.uint64), None) for v in ([0, 3, 1], [1, 2, 3], [0, 1, 4], [0, 1], [0, 1, 3, 3], [], [0, 2 ** 40, 3])], "offsets")])
     C("TableCollection.fromdict", "tables", lambda tc, a: tskit.TableCollection.fromdict(_mutdict(tc.asdict(), a[0])),
       [Slot(lambda o: 0, lambda o: [(v, None) for v in range(1, 40)], "dict-mutation")])
+    C("tskit.pack/unpack", "ts", lambda ts, a: (tskit.unpack_bytes(np.frombuffer(b"abcdef", dtype=np.int8), a[0]),
+                                                tskit.unpack_strings(np.frombuffer(b"abcdef", dtype=np.int8), a[0])),
+      [Slot(lambda o: np.array([0, 2, 6], dtype=np.uint32), lambda o: [(np.array(v, dtype=dt), None) for dt in (np.uint32, np.uint64, np.int64)
+                                                                        for v in ([0, 7], [3, 1], [0, 2 ** 31], [], [6], [1, 6], [0, 6, 6, 6])], "offsets")])
+    C("packset_*", "tables", lambda tc, a: (tc.sites.packset_ancestral_state(a[0]), tc.mutations.packset_derived_state(a[0]),
+                                            tc.individuals.packset_location(a[0]), tc.individuals.packset_parents(a[0]),
+                                            tc.provenances.packset_record(a[0]), tc.nodes.packset_metadata(a[0]), _probe_tables(tc)),
+      [Slot(lambda o: [], lambda o: [(v, None) for v in [[], ["a"], ["a"] * 1000, [b"a"], [None], [[1.5]], [[2 ** 40]], "abc", 3, [["a"]], [np.zeros(3)], [[-1, 10 ** 6]]]], "ragged-list")])
+    C("Tree.generate_random_binary", "ts", lambda ts, a: tskit.Tree.generate_random_binary(a[0], random_seed=a[1]).num_edges,
+      [Slot(lambda o: 5, lambda o: [(v, None) for v in [-1, 0, 1, 2, 3, None, "a", 1.5]], "num_leaves"),
+       Slot(lambda o: 1, lambda o: [(v, None) for v in [-1, 0, 2 ** 32, 2 ** 64, None, "a", 1.5]], "random_seed")])
+    C("TreeSequence.coiterate/mismatch", "ts", lambda ts, a: [iv.left for iv, _, _ in ts.coiterate(_other_ts(ts, a[0]))],
+      [Slot(lambda o: "same", lambda o: [(v, None) for v in ["same", "shorter", "longer", "empty", "simplified"]], "other-ts")])
+    C("tskit.load/junk-file", "ts", lambda ts, a: _load_junk(ts, a[0]),
+      [Slot(lambda o: "ok", lambda o: [(v, None) for v in ["ok", "empty", "text", "dir", "missing", "half", "zeros", "fd-closed", "int-fd", "twice"]], "file-kind")])
     C("lowlevel.Tree", "ts", lambda ts, a: _tskit.Tree(ts.ll_tree_sequence, options=a[0], tracked_samples=a[1]),
       [Slot(lambda o: 0, lambda o: [(v, None) for v in [0, 1, 2, 3, 2 ** 31, -1, 2 ** 32, None, "a"]], "options"), SAMPLE_LIST])
     C("lowlevel.TableCollection", "ts", lambda ts, a: _tskit.TableCollection(a[0]), [FLOATANY])
     C("lowlevel.Variant", "ts", lambda ts, a: _ll_variant(ts, a[0], a[1], a[2]),
       [SITE, NODE_LIST, Slot(lambda o: None, lambda o: [(v, None) for v in [(), ("A",), ("A", "C", "G", "T", "", "AC", "GGT", "é", "0", "1"), (b"A",), "ACGT", 3, ("A",) * 300]], "alleles")])
+
+
+def _other_ts(ts, kind):
+    tc = ts.dump_tables()
+    if kind == "shorter":
+        tc.keep_intervals([[0, ts.sequence_length / 2]], simplify=False)
+        tc.rtrim()
+    elif kind == "longer":
+        tc.sequence_length = ts.sequence_length * 2
+    elif kind == "empty":
+        tc.edges.clear()
+        tc.sites.clear()
+        tc.mutations.clear()
+        tc.migrations.clear()
+    elif kind == "simplified":
+        tc.migrations.clear()
+        tc.simplify()
+    return tc.tree_sequence()
+
+
+def _load_junk(ts, kind):
+    with tempfile.TemporaryDirectory() as d:
+        p = os.path.join(d, "x.trees")
+        ts.dump(p)
+        data = open(p, "rb").read()
+        if kind == "empty":
+            open(p, "wb").close()
+        elif kind == "text":
+            open(p, "w").write("hello\n" * 100)
+        elif kind == "half":
+            open(p, "wb").write(data[: len(data) // 2])
+        elif kind == "zeros":
+            open(p, "wb").write(bytes(len(data)))
+        elif kind == "dir":
+            p = d
+        elif kind == "missing":
+            p = os.path.join(d, "nope")
+        if kind == "fd-closed":
+            f = open(p, "rb")
+            f.close()
+            return tskit.load(f)
+        if kind == "int-fd":
+            fd = os.open(p, os.O_RDONLY)
+            try:
+                return tskit.TableCollection.load(fd).nodes.num_rows
+            finally:
+                try:
+                    os.close(fd)
+                except OSError:
+                    pass
+        if kind == "twice":
+            with open(p, "rb") as f:
+                a = tskit.load(f)
+                try:
+                    tskit.load(f)
+                except EOFError:
+                    pass
+                return a.num_nodes
+        return (tskit.load(p).num_nodes, tskit.TableCollection.load(p).nodes.num_rows)
 
 
 def _lshmm(ts, rates, hap):
